@@ -35,3 +35,21 @@ func TestC01BFS(t *testing.T) {
 	defer r.Write()
 	vtx.ExploreBFS(t, prof.Relay("c01-bfs", map[string]bool{"leak-c2p": true, "policy": true}), r, 7)
 }
+
+// TestC01Dual: every listener of a server has its own PermissionHandler. One
+// server with a UDP socket and a stream listener on the same ip:port whose
+// handlers differ (one admits B, the other refuses it, both ways round); c1
+// arrives over UDP, c1t (same ip:port, same user) and c2t over the stream. The
+// verdict that counts is that of the listener a client arrived through.
+func TestC01Dual(t *testing.T) {
+	r := rep.New("C01")
+	defer r.Write()
+	p := prof.IsolationDual("c01-listeners-with-different-handlers", map[string]bool{"leak-c2p": true, "policy": true})
+	p.Configs = []vtx.Config{{Dual: true, Policy: "allow", StreamPolicy: "denyB"}, {Dual: true, Policy: "denyB", StreamPolicy: "allow"},
+		{Dual: true, Policy: "denyAll", StreamPolicy: "allow"}}
+	p.Depth = 3
+	if rep.Thorough() {
+		p.Depth = 4
+	}
+	vtx.Explore(t, p, r)
+}
